@@ -187,6 +187,15 @@ pub fn child_main(dir: PathBuf, serve: bool) -> ! {
                 continue;
             }
         };
+        let mark = std::env::var("XSMON_MARK").is_ok();
+        if mark {
+            if let Some(k) = req.get("k").and_then(|k| k.as_u64()) {
+                // one write(1) syscall before the operation starts: visible in an strace log
+                let mut o = out.lock();
+                let _ = writeln!(o, "#B {}", k);
+                let _ = o.flush();
+            }
+        }
         if req["op"] == "exit" {
             let mut o = out.lock();
             let _ = writeln!(o, "{}", json!({"bye": true}));
@@ -202,6 +211,9 @@ pub fn child_main(dir: PathBuf, serve: bool) -> ! {
             Ok(v) => v,
             Err(_) => json!({"panic": true}),
         };
+        if let Some(k) = req.get("k") {
+            resp["k"] = k.clone();
+        }
         // every panic since the last reply (also those of background threads while idle)
         let p = PANICS.lock().unwrap();
         if p.len() > reported {
@@ -722,8 +734,23 @@ impl Session {
     }
 
     pub fn spawn_with(dir: &Path, serve: bool, env: &[(&str, &str)]) -> Result<Session, SessionError> {
+        Self::spawn_traced(dir, serve, env, None)
+    }
+
+    /// `trace`: run the child under `strace -f -y -xx` writing the storage system calls to that file
+    pub fn spawn_traced(dir: &Path, serve: bool, env: &[(&str, &str)], trace: Option<&Path>) -> Result<Session, SessionError> {
         std::fs::create_dir_all(dir).map_err(|e| SessionError::Harness(e.to_string()))?;
-        let mut cmd = Command::new(self_exe());
+        let mut cmd = match trace {
+            None => Command::new(self_exe()),
+            Some(t) => {
+                let mut c = Command::new("strace");
+                c.arg("-f").arg("-y").arg("-xx").arg("-s").arg("4000000").arg("-o").arg(t).arg("-e").arg(
+                    "trace=openat,open,creat,close,write,pwrite64,writev,pwritev,lseek,ftruncate,truncate,rename,renameat,renameat2,unlink,unlinkat,mkdir,mkdirat,rmdir,fsync,fdatasync,fallocate,dup,dup2,dup3",
+                );
+                c.arg(self_exe());
+                c
+            }
+        };
         cmd.arg("session").arg(dir);
         if serve {
             cmd.arg("--serve");
@@ -771,7 +798,13 @@ impl Session {
     }
 
     fn recv(&mut self, timeout: Duration) -> Result<Value, SessionError> {
-        match self.rx.recv_timeout(timeout) {
+        let line = loop {
+            match self.rx.recv_timeout(timeout) {
+                Ok(l) if l.starts_with('#') => continue,
+                other => break other,
+            }
+        };
+        match line {
             Ok(line) => serde_json::from_str(&line).map_err(|e| SessionError::Harness(format!("bad reply {}: {}", e, line))),
             Err(RecvTimeoutError::Timeout) => Err(SessionError::Timeout(format!("no reply in {:?}", timeout))),
             Err(RecvTimeoutError::Disconnected) => {
